@@ -59,6 +59,16 @@ type vclient struct {
 }
 
 func (c *vclient) Send(a *proto.Append) error {
+	if c.s.sim.auto.Load() {
+		select {
+		case c.s.toF <- a:
+			return nil
+		case <-c.s.ctx.Done():
+			return ErrWire
+		case <-c.ctx.Done():
+			return c.ctx.Err()
+		}
+	}
 	c.s.mu.Lock()
 	if c.s.closed {
 		c.s.mu.Unlock()
@@ -92,6 +102,14 @@ type vserver struct {
 }
 
 func (v *vserver) Send(a *proto.Ack) error {
+	if v.s.sim.auto.Load() {
+		select {
+		case v.s.toL <- a:
+			return nil
+		case <-v.s.ctx.Done():
+			return ErrWire
+		}
+	}
 	v.s.mu.Lock()
 	if v.s.closed {
 		v.s.mu.Unlock()
